@@ -4,6 +4,7 @@ import FstVerif.Proofs.EndToEnd
 import FstVerif.Proofs.Aut
 import FstVerif.Proofs.EofLift
 import FstVerif.Proofs.EofWrap
+import FstVerif.Proofs.EofFused
 /-
 C04 — automaton search. Statements here; proofs in Proofs/Stream.lean and
 Proofs/Seek.lean. The automaton is a universally quantified variable
@@ -70,6 +71,19 @@ theorem C04_search_eof (A : Aut σ) (hA : ContractEof A) (hg : GoodStore s den) 
         some (((den root).filter fun kv => lowerOK min kv.1 && upperOK max kv.1 && A.acceptsEof kv.1).map
                 fun kv => (kv.1, kv.2, A.run A.start kv.1)) :=
   stream_correct_eof hg hr root hroot hA.canSound min max
+
+/-- the same through repeated `next` calls on ONE stream object, and afterwards the stream stays
+done: `next` keeps returning `None` for ever (hooked automaton) -/
+theorem C04_drain_then_done_eof (A : Aut σ) (hA : ContractEof A) (hg : GoodStore s den)
+    (hr : Represents acc s) (root : Nat) (hroot : root = 0 ∨ ∃ n, (root, n) ∈ s) (min max : Bound) :
+    ∃ s0, streamNew acc A root min max = some s0 ∧
+    ∃ N, ∀ fuel, N ≤ fuel → ∃ sEnd,
+      streamDrain acc A root fuel s0 [] =
+        some (((den root).filter fun kv =>
+                lowerOK min kv.1 && upperOK max kv.1 && A.acceptsEof kv.1).map
+                fun kv => (kv.1, kv.2, A.run A.start kv.1), sEnd) ∧
+      ∀ fuel', streamNext acc A root (fuel' + 1) sEnd = some (none, sEnd) :=
+  stream_correct_fused_eof hg hr root hroot hA.canSound min max
 
 /-- without a hook the two notions of acceptance coincide, and `Contract` gives `ContractEof`:
 `C04_search_eof` specialises to `C04_search` -/
